@@ -475,8 +475,9 @@ def lik_items(rnd, c, rich):
         cand.append(dict(fn="std", W=W, ws=ws))
     for gam in GAMS:
         cand.append(dict(fn="std", shr=True, gam=gam))
-        if rich:
-            W, ws = rnd.choice(WS1 if d == 1 else WS2)
+        if rich or gam in ([1, 2], [3, 4]):
+            # shrinkage AND whitening together (the order of the two matters); non-diagonal whitening matrices preferred
+            W, ws = rnd.choice(WS1 if d == 1 else WS2[6:] + WS2[:2])
             cand.append(dict(fn="std", shr=True, gam=gam, W=W, ws=ws))
     gs = [[0] * d, [1] * d, [2] + [0] * (d - 1), [-1] + [1] * (d - 1), [1, 3][:d], [-2, 1][:d], [3] * d]
     for g in (gs if rich else [gs[0]] + rnd.sample(gs[1:], 3)):
@@ -799,7 +800,8 @@ def record_run(sc):
                 out = b.sample(sc["n"], sigma, params0=start[::-1], param_names=["t%d" % (k + 1) for k in range(p)][::-1],
                                burn_in=sc.get("burn_in", 0), logit_transform_bound=(bound[::-1] if bound else None), bar=False)
             else:
-                out = b.sample(sc["n"], sigma, params0=start, burn_in=sc.get("burn_in", 0), logit_transform_bound=bound, bar=False)
+                out = b.sample(sc["n"], sigma, params0=(None if sc.get("p0none") else start), burn_in=sc.get("burn_in", 0),
+                               logit_transform_bound=bound, bar=False)
         pn = ["t%d" % (k + 1) for k in range(p)]
         full = np.column_stack([np.asarray(out.samples_all[nm], dtype=float) for nm in pn])
         chain = [[lats[k].index(full[r, k]) for k in range(p)] for r in range(full.shape[0])]
@@ -900,7 +902,9 @@ def scripted_run(rnd, ps, tb, n, nsr, bs, maxpar=1, sched=None, burn_in=0, props
         us = [[rnd.choice([lo, 1, 8, 16, 24, 32, 40, 48, 56, 63] + list(range(lo, 64))), 64] for _ in range(n - 1)]
     return dict(kind="run", mode="scripted", n=n, nsr=nsr, bs=bs, maxpar=maxpar, sched=sched, burn_in=burn_in, tb=tb,
                 ps=[list(x) for x in ps], lat=lat, start=start, props=props, us=us, p_ready=rnd.choice([0.2, 0.5, 0.9]),
-                p_run=rnd.choice([0.0, 0.5, 1.0]))
+                p_run=rnd.choice([0.0, 0.5, 1.0]),
+                # every fourth chain starts from a draw of the prior (params0=None; the harness's prior draws the scripted start)
+                p0none=(rnd.random() < 0.25))
 
 
 def run_scenarios(ctx):
